@@ -3,6 +3,8 @@ CONSTANTS
   LegacyBreak = FALSE
   SwapIn = ""
   NoShadow = FALSE
+  NoPreCheck = FALSE
+  XParU = {}
   ShallowSub = TRUE
   IgnoreNs = FALSE
   ModSharedPath = FALSE
